@@ -471,6 +471,9 @@ func (r *W3Run) execCtlOps(st *ctlState) {
 				s.runFor(joinSettle - (s.now() - target.joinAct))
 			}
 			overlap := target.joinAct >= 0 && s.now()-target.joinAct < joinSettle
+			if target.alive && !target.joined {
+				overlap = true // its handshake is still in flight (an answer was lost, it waits)
+			}
 			invoked := s.now()
 			var h *histOp
 			// the operator repeats the request until it is acknowledged
@@ -497,8 +500,13 @@ func (r *W3Run) execCtlOps(st *ctlState) {
 			if h.done && h.err == nil && !overlap {
 				// acknowledged: the operator lets the cluster move the node's partitions
 				// (their groups need the node's vote to shrink) and then takes it out of service
-				st.removed[op.A] = true
 				s.runFor(15 * time.Second)
+				if target.joinAct >= invoked {
+					overlap = true // a handshake of the node returned meanwhile
+				}
+			}
+			if h.done && h.err == nil && !overlap {
+				st.removed[op.A] = true
 				if target.alive && (r.c.Cfg.Seed>>(uint(i)%32))&1 == 1 {
 					// ... or forgets to: the removed node's process keeps running (it is never
 					// restarted and nothing is asserted about it); the remaining members must
